@@ -27,7 +27,9 @@ func keyTypes() []*Ty {
 		NStruct("SKey", F("A", B("int")), F("B", B("string"))), B("bool"), B("float64"),
 		// every ordered basic kind once as a key (sorting of keys is per kind in the sort plugin)
 		B("int8"), B("int16"), B("int32"), B("int64"), B("uint"), B("uint8"), B("uint16"), B("uint32"), B("uint64"), B("uintptr"), B("float32"),
-		Named("NU64", B("uint64"))}
+		Named("NU64", B("uint64")),
+		// keys that are not ordered by <: the sort plugin delegates to the compare plugin
+		B("complex128")}
 }
 
 func tagOf(t *Ty) map[string]bool {
@@ -137,6 +139,8 @@ func Corpus(tier string, seed int64) []Inst {
 		add(Ptr(NStruct("WMstring_string", F("A", B("int")), F("F", Map(B("string"), B("string"))), F("Z", B("string")))))
 		add(Array(2, Ptr(B("string"))))
 	}
+	// an array of slices as a map value: built in a temporary before it is stored (the temporary must be per entry)
+	add(Map(B("string"), Array(2, Slice(B("int")))))
 	// containers of named basics and of struct-keyed maps
 	add(Slice(Named("NInt", B("int"))))
 	add(Map(Named("NStr", B("string")), Slice(B("int"))))
